@@ -87,6 +87,7 @@ type CallSpec struct {
 	Conn    int                 `json:"conn,omitempty"`
 	ReqMD   map[string][]string `json:"reqmd,omitempty"`
 	Timeout time.Duration       `json:"timeout,omitempty"`
+	BothWays bool               `json:"both_ways,omitempty"` // C11: abandoned with traffic pending in both directions
 	PreDone int                 `json:"predone,omitempty"` // the caller's context is already finished when the call starts: 1 cancelled, 2 deadline passed
 	Req     []byte              `json:"-"`
 	Resp    []byte              `json:"-"`
@@ -128,6 +129,7 @@ type CallRec struct {
 	CTrailerSet bool
 	burst     chan struct{} // closed when the handler has sent its burst (op 'n') or returned
 	burstOnce sync.Once
+	COverrun  bool // the caller received far more messages than the handler sends: the receive loop was cut
 	CTrailerAgain []metadata.MD // further Trailer() reads (same stream, later)
 	CHeaderAgain  []metadata.MD
 	CloseErr    error
@@ -473,7 +475,9 @@ func (s *Sim) streamHandler(kind int, ss grpc.ServerStream) error {
 		if s.DefaultStream != nil {
 			return s.DefaultStream(kind, ss)
 		}
-		// default: consume until EOF, then OK
+		// default: a handler that speaks first (a stream started for something no
+		// caller opened must show on the wire), then consumes until EOF
+		ss.SendMsg(wrapperspb.Bytes([]byte("handler-started-for-an-untagged-call")))
 		for {
 			m := new(wrapperspb.BytesValue)
 			if err := ss.RecvMsg(m); err != nil {
@@ -648,9 +652,15 @@ func (s *Sim) cprog(r *CallRec, st grpc.ClientStream, prog []Op, suffix string) 
 				} else {
 					r.CGot = append(r.CGot, m.GetValue())
 				}
+				overrun := err == nil && len(r.CGot)+len(r.CRecvAfterFinal) > r.Spec.HSendN+8
+				if overrun {
+					// more successful receives than the handler could ever have sent:
+					// a receive that keeps "succeeding" must not spin the run to its step limit
+					r.COverrun = true
+				}
 				histMu.Unlock()
 				e.Log("c.recv", "", id, errStr(err))
-				if err != nil {
+				if err != nil || overrun {
 					break
 				}
 			}
